@@ -97,3 +97,36 @@ pub fn casing_ok(id: &LangId) -> bool {
             .iter()
             .all(|v| v.bytes().all(|b| b.is_ascii_lowercase() || b.is_ascii_digit()))
 }
+
+/// Single-representation facts of a LanguageIdentifier that the getters alone do not show:
+/// the undetermined language must be the *empty* language (not a language named "und"), and
+/// "no variants" must be the same value as a never-touched variants field.
+pub fn repr_facts_li(li: &LanguageIdentifier) -> Vec<&'static str> {
+    let mut bad = vec![];
+    let is_und = li.language.as_str() == "und";
+    if is_und != li.language.is_empty() {
+        bad.push("language prints as und but is not the empty language (or vice versa)");
+    }
+    if is_und && li.language != unic_langid_impl::subtags::Language::default() {
+        bad.push("und language != Language::default()");
+    }
+    let none_built = LanguageIdentifier::from_parts(li.language, li.script, li.region, &li.variants().cloned().collect::<Vec<_>>());
+    if none_built != *li {
+        bad.push("value != from_parts(its own fields) (second representation of the same logical value)");
+    }
+    bad
+}
+
+pub fn repr_facts(l: &Locale) -> Vec<&'static str> {
+    let mut bad = repr_facts_li(&l.id);
+    if let Some(t) = l.extensions.transform.tlang() {
+        for f in repr_facts_li(t) {
+            bad.push(match f {
+                x if x.starts_with("language prints") => "tlang: language prints as und but is not the empty language",
+                x if x.starts_with("und language") => "tlang: und language != Language::default()",
+                _ => "tlang: value != from_parts(its own fields)",
+            });
+        }
+    }
+    bad
+}
